@@ -231,6 +231,12 @@ fn threshold_roots(rng: &mut Rng, n: usize) -> Vec<Board> {
     let fixed = [
         "8/8/8/8/8/6k1/r7/7K w - - 0 1", "8/8/8/8/8/2k5/7r/K7 b - - 0 1", "7k/8/8/8/8/8/5r2/K5r1 w - - 0 1",
         "6k1/8/8/8/8/8/r7/1r5K w - - 0 1", "k7/7R/1K6/8/8/8/8/8 b - - 0 1", "7K/8/5k2/8/8/8/8/6q1 w - - 0 1",
+        // a capture removes the last pawn and leaves one / two minor pieces (the insufficient-material cut after captures), both colours
+        "7k/8/8/8/2b5/8/4P3/K7 b - - 0 1", "k7/4p3/8/2B5/8/8/8/7K w - - 0 1",
+        "7k/8/8/8/3n4/8/4P3/K7 b - - 0 1", "k7/4p3/8/3N4/8/8/8/7K w - - 0 1",
+        "7k/8/8/8/2bn4/8/4P3/K7 b - - 0 1", "k7/4p3/8/2BN4/8/8/8/7K w - - 0 1",
+        "7k/8/8/2B5/2b5/8/4P3/K7 b - - 0 1", "k7/4p3/8/2B5/2b5/8/8/7K w - - 0 1",
+        "7k/8/8/8/8/2n5/3PB3/K7 b - - 0 1", "k7/3pb3/2N5/8/8/8/8/7K w - - 0 1",
     ];
     let mut v: Vec<Board> = fixed.iter().filter_map(|s| s.parse().ok()).collect();
     let mut tries = 0;
